@@ -663,3 +663,6 @@ PROPS["C09"]["proofs"] = PROPS["C09"]["proofs"] + ["Bmc.Proofs.EndToEnd.HistoryC
 PROPS["C09"]["claim"] += (" HISTORY FORM about the translated code (Proofs/EndToEnd/HistoryC09.lean): generatedHistory runs SendCommand AS TRANSLATED command after command, threading its own connection value; "
                           "generatedHistory_eq — its datagrams over the whole history are the hand model's; generated_history_sequence_numbers / generated_history_no_reuse — counter+1, counter+2, … with no gap and no repeat, "
                           "all addressed to the BMC's session ID, and no number used twice for any starting counter and up to 2^32 transmissions.")
+PROPS["C15"]["proofs"] = PROPS["C15"]["proofs"] + ["Bmc.Proofs.C15Source"]
+PROPS["C15"]["claim"] += (" SOURCE TIES (Proofs/C15Source.lean, regenerated facts): lineariser_table_source / parser_table_source — which function each of the two lookup tables holds for which key, as in the source on this run; "
+                          "sensor_reader_source — the bodies of the five reader functions, the two table look-ups and the two adapter methods are what Proto/Sensor.lean transcribes.")
